@@ -25,3 +25,5 @@ _am = _u.module_from_spec(_sp); _sp.loader.exec_module(_am)
 for _pid in ("C05", "C10"):
     if _pid in PROPS and not any(s.get("name") == "arith" for s in PROPS[_pid]["streams"]):
         PROPS[_pid]["streams"] = list(PROPS[_pid]["streams"]) + [dict(_am.ARITH_STREAM, codes={0: "base-dec-differs-from-cosmossdk-math"})]
+        if "Base/DecCheck.vo" not in PROPS[_pid].get("coq_targets", []):
+            PROPS[_pid]["coq_targets"] = list(PROPS[_pid].get("coq_targets", [])) + ["Base/DecCheck.vo"]
